@@ -291,8 +291,9 @@ func (w *worker) verifyModel(d *dataset) bool {
 // idxDown / idxUp re-state the documented float64 -> float32 "outward" rounding of
 // index rectangles (multiply by 1 -+ 2^-23 when the nearest float32 is on the wrong
 // side). They are used only to NAME a scenario class, never for a verdict: for a
-// latitude between 0.42 m and 0.85 m from a pole the multiplication overshoots by
-// two float32 steps and the index rectangle reaches beyond +-90 degrees.
+// latitude between 0.42 m and 0.85 m from a pole (or a longitude within ~1.7 m of
+// +-180) the multiplication overshoots by two float32 steps and the index rectangle
+// reaches beyond +-90 (+-180) degrees.
 func idxDown(d float64) float32 {
 	f := float32(d)
 	if float64(f) > d {
@@ -317,7 +318,9 @@ func idxUp(d float64) float32 {
 	return f
 }
 
-func beyondPole(r geo.Rect) bool { return idxDown(r.MinLat) < -90 || idxUp(r.MaxLat) > 90 }
+func beyondRange(r geo.Rect) bool {
+	return idxDown(r.MinLat) < -90 || idxUp(r.MaxLat) > 90 || idxDown(r.MinLon) < -180 || idxUp(r.MaxLon) > 180
+}
 
 type hit struct {
 	id     string
@@ -550,12 +553,12 @@ func (w *worker) runDataset(idx int) {
 	ctx.Count("datasets", 1)
 	poleOverflow := 0
 	for _, o := range sp {
-		if beyondPole(o.Rect) {
+		if beyondRange(o.Rect) {
 			poleOverflow++
 		}
 	}
 	if poleOverflow > 0 {
-		ctx.Count("datasets_with_index_rect_beyond_pole", 1)
+		ctx.Count("datasets_with_index_rect_out_of_range", 1)
 	}
 	ctx.Count("region_"+reg.Name, 1)
 	if len(sp) > 64 {
@@ -625,9 +628,10 @@ func (w *worker) runDataset(idx int) {
 		if key, what := judge(q, sp, byID, odist, hits); key != "" {
 			if poleOverflow > 0 && (key == "nearby:order" || key == "nearby:knn-missed" || key == "nearby:radius-missed") {
 				// scenario class: the collection holds objects whose float32 index rectangle reaches
-				// beyond a pole; the best-first traversal's lower bound is then not a lower bound
-				key = "nearby:index-lat-beyond-pole"
-				what += fmt.Sprintf(" [%d objects of the collection have an index rectangle beyond +-90 deg latitude]", poleOverflow)
+				// beyond a pole or the antimeridian; the best-first traversal's node distance is then
+				// not a lower bound of the distances of the objects below the node
+				key = "nearby:index-rect-out-of-range"
+				what += fmt.Sprintf(" [%d objects of the collection have a float32 index rectangle beyond +-90/+-180 deg]", poleOverflow)
 			}
 			var got [][2]string
 			for _, h := range hits {
